@@ -186,3 +186,299 @@ pub fn arc(v: Vec<u8>) -> Arc<Vec<u8>> {
 pub fn decode(archive: &[u8]) -> Result<fmt::Header, String> {
     fmt::decode_header(archive)
 }
+
+// =======================================================================================
+// Clone scenarios + R3 expectations
+
+use crate::iod::{ReadRec, WriteRec};
+use crate::l1::{CloneOpts, CloneReport};
+use proptest::prelude::*;
+use std::collections::{BTreeSet, HashSet};
+
+#[derive(Clone, Debug, Serialize, Deserialize)]
+pub struct Scenario {
+    pub source: SourceSpec,
+    pub cfg: ArchCfg,
+    pub seeds: Vec<(Related, ReadScript)>,
+    /// existing content of the output path (None = absent)
+    pub prior: Option<Related>,
+    /// --seed-output
+    pub inplace: bool,
+    pub block_dev: bool,
+    pub clone_buffers: usize,
+}
+
+pub struct Expect {
+    pub source: Arc<Vec<u8>>,
+    pub prior: Option<Vec<u8>>,
+    pub seeds: Vec<Arc<Vec<u8>>>,
+    pub src_chunks: Vec<MChunk>,
+    pub prior_chunks: Vec<MChunk>,
+    pub seed_chunks: Vec<Vec<MChunk>>,
+    pub collision: bool,
+    /// truncated keys of source chunks
+    pub src_keys: BTreeSet<Vec<u8>>,
+    /// keys found in the prior output (if used as seed)
+    pub in_prior: BTreeSet<Vec<u8>>,
+    /// keys found in any seed
+    pub in_seeds: BTreeSet<Vec<u8>>,
+    /// keys that must be fetched from the archive
+    pub missing: BTreeSet<Vec<u8>>,
+    /// source offsets whose chunk is already in place in the prior output
+    pub in_place_offsets: BTreeSet<usize>,
+    pub hash_len: usize,
+}
+
+pub fn expectations(s: &Scenario) -> Expect {
+    let source = Arc::new(expand(&s.source));
+    let prior = s.prior.as_ref().map(|r| related_bytes(&source, r));
+    let seeds: Vec<Arc<Vec<u8>>> = s.seeds.iter().map(|(r, _)| Arc::new(related_bytes(&source, r))).collect();
+    let c = &s.cfg.chunker;
+    let hl = s.cfg.hash_len;
+    let src_chunks = model_chunks(c, &source);
+    let prior_chunks = if s.inplace { prior.as_ref().map(|p| model_chunks(c, p)).unwrap_or_default() } else { vec![] };
+    let seed_chunks: Vec<Vec<MChunk>> = seeds.iter().map(|d| model_chunks(c, d)).collect();
+    let mut streams: Vec<&[MChunk]> = vec![&src_chunks, &prior_chunks];
+    for sc in &seed_chunks {
+        streams.push(sc);
+    }
+    let collision = has_truncated_collision(hl, &streams);
+    let src_keys: BTreeSet<Vec<u8>> = src_chunks.iter().map(|m| m.key(hl)).collect();
+    let prior_keys: HashSet<Vec<u8>> = prior_chunks.iter().map(|m| m.key(hl)).collect();
+    let in_prior: BTreeSet<Vec<u8>> = src_keys.iter().filter(|k| prior_keys.contains(*k)).cloned().collect();
+    let mut seed_keys: HashSet<Vec<u8>> = HashSet::new();
+    for sc in &seed_chunks {
+        for m in sc {
+            seed_keys.insert(m.key(hl));
+        }
+    }
+    let in_seeds: BTreeSet<Vec<u8>> = src_keys.iter().filter(|k| seed_keys.contains(*k)).cloned().collect();
+    let missing: BTreeSet<Vec<u8>> = src_keys.iter().filter(|k| !in_prior.contains(*k) && !in_seeds.contains(*k)).cloned().collect();
+    let prior_at: HashSet<(usize, Vec<u8>)> = prior_chunks.iter().map(|m| (m.off, m.key(hl))).collect();
+    let in_place_offsets: BTreeSet<usize> = src_chunks.iter().filter(|m| prior_at.contains(&(m.off, m.key(hl)))).map(|m| m.off).collect();
+    Expect { source, prior, seeds, src_chunks, prior_chunks, seed_chunks, collision, src_keys, in_prior, in_seeds, missing, in_place_offsets, hash_len: hl }
+}
+
+pub struct L1Outcome {
+    pub archive: Arc<Vec<u8>>,
+    pub header: fmt::Header,
+    pub report: CloneReport,
+    pub reads: Vec<ReadRec>,
+}
+
+/// Build the archive with the library writer and clone it with the L1 mirror.
+pub fn evaluate_l1(s: &Scenario, e: &Expect, faults: Vec<crate::iod::WriteFault>) -> Result<L1Outcome, String> {
+    let archive = crate::util::block_on(crate::l1::compress_lib(e.source.clone(), &s.cfg, ReadScript::full(), &BTreeMap::new()))?;
+    let header = fmt::decode_header(&archive).map_err(|x| format!("harness: fresh archive not decodable: {}", x))?;
+    let archive = Arc::new(archive);
+    let (reader, log) = crate::l1::local_reader(archive.clone(), ReadScript::full());
+    let opts = CloneOpts {
+        seeds: e.seeds.iter().cloned().zip(s.seeds.iter().map(|(_, r)| r.clone())).collect(),
+        prior: e.prior.clone(),
+        inplace: s.inplace,
+        block_dev: s.block_dev,
+        buffers: s.clone_buffers,
+        faults,
+        ..Default::default()
+    };
+    let report = crate::util::block_on(crate::l1::clone_mirror(reader, &opts));
+    let reads = log.lock().unwrap().clone();
+    Ok(L1Outcome { archive, header, report, reads })
+}
+
+pub fn clone_l1_of(archive: &Arc<Vec<u8>>, s: &Scenario, e: &Expect, prior: Option<Vec<u8>>, faults: Vec<crate::iod::WriteFault>) -> (CloneReport, Vec<ReadRec>) {
+    let (reader, log) = crate::l1::local_reader(archive.clone(), ReadScript::full());
+    let opts = CloneOpts {
+        seeds: e.seeds.iter().cloned().zip(s.seeds.iter().map(|(_, r)| r.clone())).collect(),
+        prior,
+        inplace: s.inplace,
+        block_dev: s.block_dev,
+        buffers: s.clone_buffers,
+        faults,
+        ..Default::default()
+    };
+    let report = crate::util::block_on(crate::l1::clone_mirror(reader, &opts));
+    let reads = log.lock().unwrap().clone();
+    (report, reads)
+}
+
+/// Final content the property promises: regular file = exactly the source; block device = source followed by
+/// whatever the device held beyond the source length.
+pub fn check_final_output(s: &Scenario, e: &Expect, out: &[u8]) -> Result<(), String> {
+    if s.block_dev {
+        if out.len() < e.source.len() || out[..e.source.len()] != e.source[..] {
+            return Err(crate::util::describe_diff("output differs from source", &out[..e.source.len().min(out.len())], &e.source));
+        }
+        Ok(())
+    } else if out != &e.source[..] {
+        Err(crate::util::describe_diff("output differs from source", out, &e.source))
+    } else {
+        Ok(())
+    }
+}
+
+/// C13's oracle over a write log.
+pub fn check_write_log(e: &Expect, writes: &[WriteRec]) -> Result<(), String> {
+    let by_off: HashMap<usize, &MChunk> = e.src_chunks.iter().map(|m| (m.off, m)).collect();
+    let mut seen: HashSet<u64> = HashSet::new();
+    for w in writes {
+        if w.data.is_empty() {
+            continue;
+        }
+        let Some(m) = by_off.get(&(w.off as usize)) else {
+            return Err(format!("write log: write of {} bytes at {} which is not the offset of any source chunk", w.data.len(), w.off));
+        };
+        if w.data.len() != m.len || w.data[..] != e.source[m.off..m.off + m.len] {
+            return Err(format!("write log: write at {} ({} bytes) is not exactly the source chunk at that offset ({} bytes)", w.off, w.data.len(), m.len));
+        }
+        if w.off as usize + w.data.len() > e.source.len() {
+            return Err(format!("write log: write at {} reaches beyond the source length {}", w.off, e.source.len()));
+        }
+        if !seen.insert(w.off) {
+            return Err(format!("write log: location {} written more than once", w.off));
+        }
+        if e.in_place_offsets.contains(&(w.off as usize)) {
+            return Err(format!("write log: location {} already held the right chunk in the prior output but was written", w.off));
+        }
+    }
+    Ok(())
+}
+
+/// C06's oracle over the recorded archive reads. `header_len` and descriptors come from R2.
+pub fn check_read_log(e: &Expect, h: &fmt::Header, reads: &[ReadRec]) -> Result<(), String> {
+    let hl = e.hash_len;
+    // expected stored ranges, in dictionary order
+    let want: Vec<(u64, usize)> = h
+        .dictionary
+        .chunk_descriptors
+        .iter()
+        .filter(|d| e.missing.contains(&d.checksum[..hl.min(d.checksum.len())].to_vec()))
+        .map(|d| (h.chunk_data_offset + d.archive_offset, d.archive_size as usize))
+        .collect();
+    let mut got: Vec<(u64, usize)> = vec![];
+    for r in reads {
+        match r {
+            ReadRec::At { offset, size } => {
+                if offset + *size as u64 > h.header_len as u64 {
+                    return Err(format!("read log: read_at({}, {}) reaches beyond the header region [0,{})", offset, size, h.header_len));
+                }
+            }
+            ReadRec::Chunks(v) => got.extend(v.iter().cloned()),
+        }
+    }
+    let mut g = got.clone();
+    g.sort();
+    let mut w = want.clone();
+    w.sort();
+    if g != w {
+        let extra: Vec<_> = g.iter().filter(|x| !w.contains(x)).take(3).collect();
+        let lacking: Vec<_> = w.iter().filter(|x| !g.contains(x)).take(3).collect();
+        return Err(format!(
+            "read log: requested {} stored ranges, expected exactly the {} ranges of the chunks missing from seeds/prior output (unexpected e.g. {:?}, not requested e.g. {:?})",
+            g.len(),
+            w.len(),
+            extra,
+            lacking
+        ));
+    }
+    Ok(())
+}
+
+pub fn scenario_strategy(min_hash: usize, with_prior: bool, with_seeds: bool) -> impl Strategy<Value = Scenario> {
+    let prior = if with_prior {
+        prop_oneof![1 => Just(None), 6 => related_strategy(600).prop_map(Some)].boxed()
+    } else {
+        Just(None).boxed()
+    };
+    let seeds = if with_seeds {
+        prop::collection::vec((related_strategy(600), prop_oneof![3 => Just(ReadScript::full()), 1 => read_script_strategy()]), 0..4).boxed()
+    } else {
+        Just(vec![]).boxed()
+    };
+    (
+        prop_oneof![
+            3 => source_strategy(6, 1500),
+            1 => zero_heavy_strategy(6, 300),
+            // rich: enough content for many chunks, so that edits leave some chunks in place, move others and lose some
+            4 => prop::collection::vec(
+                prop_oneof![
+                    4 => (100u32..800, any::<u32>()).prop_map(|(n, seed)| Seg::Random { n, seed }),
+                    1 => (100u32..800, any::<u32>()).prop_map(|(n, seed)| Seg::Text { n, seed }),
+                    1 => (any::<u16>(), 50u32..400).prop_map(|(at, len)| Seg::CopyOf { at, len }),
+                ],
+                2..6
+            ),
+        ],
+        arch_cfg_strategy(min_hash, true),
+        seeds,
+        prior,
+        prop_oneof![3 => Just(true), 1 => Just(false)],
+        prop_oneof![4 => Just(false), 1 => Just(true)],
+        buffers_strategy(),
+    )
+        .prop_map(|(source, cfg, seeds, prior, inplace, block_dev, clone_buffers)| {
+            let inplace = inplace && prior.is_some();
+            let block_dev = block_dev && prior.is_some();
+            Scenario { source, cfg, seeds, prior, inplace, block_dev, clone_buffers }
+        })
+}
+
+/// A block device must be at least as large as the source: pad the prior content (sound domain for block_dev).
+pub fn normalise_block_dev(s: &Scenario, e: &mut Expect) {
+    if s.block_dev {
+        if let Some(p) = &mut e.prior {
+            if p.len() < e.source.len() {
+                let mut r = SplitMix(p.len() as u64);
+                let n = e.source.len() - p.len();
+                r.fill(p, n);
+                // prior chunks must be recomputed
+                e.prior_chunks = if s.inplace { model_chunks(&s.cfg.chunker, p) } else { vec![] };
+                let hl = e.hash_len;
+                let prior_keys: HashSet<Vec<u8>> = e.prior_chunks.iter().map(|m| m.key(hl)).collect();
+                e.in_prior = e.src_keys.iter().filter(|k| prior_keys.contains(*k)).cloned().collect();
+                e.missing = e.src_keys.iter().filter(|k| !e.in_prior.contains(*k) && !e.in_seeds.contains(*k)).cloned().collect();
+                let prior_at: HashSet<(usize, Vec<u8>)> = e.prior_chunks.iter().map(|m| (m.off, m.key(hl))).collect();
+                e.in_place_offsets = e.src_chunks.iter().filter(|m| prior_at.contains(&(m.off, m.key(hl)))).map(|m| m.off).collect();
+                let mut streams: Vec<&[MChunk]> = vec![&e.src_chunks, &e.prior_chunks];
+                for sc in &e.seed_chunks {
+                    streams.push(sc);
+                }
+                e.collision = has_truncated_collision(hl, &streams);
+            }
+        }
+    }
+}
+
+pub fn classify_scenario(rec: &mut CaseRec, s: &Scenario, e: &Expect) {
+    rec.class_if(s.inplace, "seed_output");
+    rec.class_if(s.block_dev, "block_device");
+    rec.class_if(!s.seeds.is_empty(), "seed_files");
+    rec.class_if(s.seeds.len() >= 2, "multiple_seeds");
+    rec.class_if(!e.in_prior.is_empty(), "chunk_found_in_prior_output");
+    rec.class_if(!e.in_seeds.is_empty(), "chunk_found_in_seed");
+    rec.class_if(!e.in_place_offsets.is_empty(), "chunk_already_in_place");
+    rec.class_if(e.in_prior.len() > e.in_place_offsets.len(), "chunk_moved_in_place");
+    rec.class_if(!e.missing.is_empty(), "chunk_fetched");
+    rec.class_if(s.cfg.hash_len < 64, "truncated_hash");
+    if let Some(p) = &e.prior {
+        rec.class_if(p.len() > e.source.len(), "prior_longer");
+        rec.class_if(p.len() < e.source.len(), "prior_shorter");
+        rec.class_if(p.len() == e.source.len(), "prior_same_length");
+    }
+    // a seed chunk equal in size but not in content to a needed chunk
+    let src_sizes: HashSet<usize> = e.src_chunks.iter().map(|m| m.len).collect();
+    let src_full: HashSet<[u8; 64]> = e.src_chunks.iter().map(|m| m.full).collect();
+    rec.class_if(e.seed_chunks.iter().flatten().any(|m| src_sizes.contains(&m.len) && !src_full.contains(&m.full)), "seed_chunk_same_size_other_content");
+    // the same needed chunk offered by two seeds
+    if e.seed_chunks.len() >= 2 {
+        let mut count: HashMap<Vec<u8>, usize> = HashMap::new();
+        for sc in &e.seed_chunks {
+            let ks: HashSet<Vec<u8>> = sc.iter().map(|m| m.key(e.hash_len)).filter(|k| e.src_keys.contains(k)).collect();
+            for k in ks {
+                *count.entry(k).or_insert(0) += 1;
+            }
+        }
+        rec.class_if(count.values().any(|c| *c >= 2), "chunk_offered_by_two_seeds");
+    }
+}
+use crate::engine::CaseRec;
